@@ -224,6 +224,8 @@ pub struct Feature {
     pub tag: String,
     pub lookups: Vec<u16>,
     pub has_params: bool,
+    /// the FeatureParams table (first bytes), if any
+    pub params: Vec<u8>,
 }
 
 #[derive(Clone, Debug)]
@@ -608,7 +610,9 @@ pub fn parse_layout(data: &[u8], gpos: bool) -> R<Layout> {
         let fl = t.at(fo)?;
         for i in 0..fl.u16(0)? as usize {
             let f = fl.at(fl.u16(6 + 6 * i)? as usize)?;
-            out.features.push(Feature { tag: fl.tag(2 + 6 * i)?, has_params: f.u16(0)? != 0, lookups: f.u16s(4, f.u16(2)? as usize)? });
+            let po = f.u16(0)? as usize;
+            let params = if po != 0 { f.at(po)?.d.iter().take(64).copied().collect() } else { vec![] };
+            out.features.push(Feature { tag: fl.tag(2 + 6 * i)?, has_params: po != 0, lookups: f.u16s(4, f.u16(2)? as usize)?, params });
         }
     }
     let lo = t.u16(8)? as usize;
